@@ -27,7 +27,7 @@ var files = map[string]string{
 
 type access struct {
 	typ, method, field, rw string
-	locks                  []string // "Type.lock:W" / ":R"
+	locks                  []string // "Type.lock:W:section" / ":R:section"
 	via                    string
 }
 type method struct {
@@ -63,6 +63,8 @@ func exprText(e ast.Expr) string {
 	}
 	return "?"
 }
+
+var sectionCounter int
 
 type walker struct {
 	m        *method
@@ -128,7 +130,19 @@ func (w *walker) lock(name, mode string) {
 			(*w.edges)[hn+" -> "+full] = true
 		}
 	}
-	w.held = append(w.held, full+":"+mode)
+	// an episode = a maximal period during which some lock of this component is held
+	episode := 0
+	for _, h := range w.held {
+		p := strings.Split(h, ":")
+		if strings.HasPrefix(p[0], w.m.typ+".") {
+			fmt.Sscanf(p[2], "%d", &episode)
+		}
+	}
+	if episode == 0 {
+		sectionCounter++
+		episode = sectionCounter
+	}
+	w.held = append(w.held, fmt.Sprintf("%s:%s:%d", full, mode, episode))
 }
 func (w *walker) unlock(name string) {
 	full := w.m.typ + "." + name
@@ -480,16 +494,38 @@ func main() {
 	}
 	// de-duplicate; the entry point is recorded as "RootType.RootMethod"
 	seen := map[string]bool{}
+	secs := map[string]map[string]bool{}
 	var lines []string
 	for _, a := range all {
 		root := strings.Split(a.via, ">")[0]
-		key := fmt.Sprintf("%s|%s|%s|%s|%s", root, a.typ, a.field, a.rw, strings.Join(a.locks, ","))
+		// critical sections of the field's own component in which this entry point touches the field
+		sk := root + "|" + a.typ + "." + a.field
+		if secs[sk] == nil {
+			secs[sk] = map[string]bool{}
+		}
+		own := false
+		for _, l := range a.locks {
+			p := strings.Split(l, ":")
+			if strings.HasPrefix(p[0], a.typ+".") {
+				secs[sk][p[2]] = true
+				own = true
+			}
+		}
+		if !own {
+			secs[sk]["unlocked"] = true
+		}
+		var plain []string
+		for _, l := range a.locks {
+			p := strings.Split(l, ":")
+			plain = append(plain, p[0]+":"+p[1])
+		}
+		key := fmt.Sprintf("%s|%s|%s|%s|%s", root, a.typ, a.field, a.rw, strings.Join(plain, ","))
 		if seen[key] {
 			continue
 		}
 		seen[key] = true
 		var ls []string
-		for _, l := range a.locks {
+		for _, l := range plain {
 			p := strings.Split(l, ":")
 			mode := "LW"
 			if p[1] == "R" {
@@ -515,7 +551,20 @@ func main() {
 	b.WriteString("From RV Require Import model.Base model.Lockset.\nLocal Open Scope string_scope.\n\n")
 	b.WriteString("Definition table : list access := [\n" + strings.Join(lines, ";\n") + "\n].\n\n")
 	b.WriteString("Definition lock_edges : list (string * string) := [\n" + strings.Join(el, ";\n") + "\n].\n\n")
-	b.WriteString("Definition entry_points : list string := [\n" + strings.Join(en, ";\n") + "\n].\n")
+	b.WriteString("Definition entry_points : list string := [\n" + strings.Join(en, ";\n") + "\n].\n\n")
+	var sl []string
+	for k, v := range secs {
+		p := strings.Split(k, "|")
+		n := len(v)
+		un := "false"
+		if v["unlocked"] {
+			un = "true"
+		}
+		sl = append(sl, fmt.Sprintf("  (%s, %s, %d%%nat, %s)", q(p[0]), q(p[1]), n, un))
+	}
+	sort.Strings(sl)
+	b.WriteString("(* entry point, field, number of distinct critical sections (of the field's own component) in which\n   the entry point touches the field (an unlocked access counts as one more), any unlocked access *)\n")
+	b.WriteString("Definition field_sections : list (string * string * nat * bool) := [\n" + strings.Join(sl, ";\n") + "\n].\n")
 	old, _ := os.ReadFile(outPath)
 	if string(old) != b.String() {
 		if err := os.WriteFile(outPath, []byte(b.String()), 0o644); err != nil {
